@@ -735,5 +735,7 @@ def run(ctx):
     rule_route(ctx)
     rule_available(ctx)
     rule_partition_count(ctx)
+    from .common import rule_metadata_leader_verbatim
+    rule_metadata_leader_verbatim(ctx, "available")
     rep.nd("bit-for-bit equality with Java for concrete keys is implied by term equality modulo 2^32 plus the width rule, under the assumption that "
            "Python's `bytes` indexing yields 0..255; no concrete key is hashed by this check")
